@@ -258,6 +258,17 @@ def facts(snap, F):
     F.try_add("nativeSlotLabels", "List ((String × String) × List String)", lean_labels,
               "labels of the Py_BuildValue arguments of each one-shot C function (its // comments), per platform identity")
 
+    def lean_native_args():
+        rows = []
+        for (k, ident), u, ex in T.native_args(snap.pkg):
+            rows.append("((%s, %s), %s, %s)" % (lean_str(k), lean_str(ident), lean_str(u), T.lstr_list(ex)))
+        return "[" + ", ".join(rows) + "]"
+    F.try_add("nativeArgs", "List ((String × String) × String × List String)", lean_native_args,
+              "the Py_BuildValue CALL of every one-shot C function (key = slot map) and of every native tuple the Python side unpacks positionally (key = native function), per platform identity, after the preprocessor: (format units, argument expressions — comments and one leading cast dropped, no blanks)")
+    F.try_add("stubRecordLens", "List ((String × String) × Nat)",
+              lambda: lean_list(T.stub_record_lens(emus), lambda q: "((%s, %s), %d)" % (lean_str(q[0][0]), lean_str(q[0][1]), q[1])),
+              "length of the tuple the emulator's STUB native returns for each of the records above (measured by calling the stub)")
+
     def lean_feeds():
         rows = []
         for fam in fams:
@@ -333,6 +344,38 @@ def facts(snap, F):
     F.try_add("documented", "List (String × List String)", lean_doc,
               "names docs/index.rst promises per platform identity (Process methods as Process.<m>), sorted")
 
+    def doc_fields():
+        if "f" not in doc_cache:
+            p = os.path.join(snap.dir, "docs", "index.rst")
+            if not os.path.isfile(p):
+                raise NotRecognised("docs/index.rst not in the tree; the committed table is used")
+            with open(p, encoding="utf-8") as f:
+                doc_cache["f"] = T.documented_fields(f.read())
+        return doc_cache["f"]
+
+    def lean_doc_fields():
+        d = doc_fields()
+        return "[" + ", ".join(T.lpair(lean_str(i), lean_list(
+            d[i], lambda r: "(%s, %s, %s, %s)" % (lean_str(r[0]), lean_str(r[1]), lean_bool(r[3]), T.lstr_list(r[2]))))
+            for i in E.IDENTS) + "]"
+    F.try_add("docFields", "List (String × List (String × String × Bool × List String))", lean_doc_fields,
+              "per platform identity: (documented function | Process.<method>, namedtuple type its doc example shows, ordered?, field names docs/index.rst promises there) — bullets `- **field** *(platforms)*` (unordered) and the per-platform columns of the field tables (ordered)")
+
+    def lean_actual_fields():
+        try:
+            d = doc_fields()
+        except NotRecognised:
+            d = _baseline_doc_fields()
+        rows = []
+        for i in E.IDENTS:
+            nts = sorted({r[1] for r in d[i]})
+            got = [(nt, T.actual_fields(emus[i], nt)) for nt in nts]
+            rows.append(T.lpair(lean_str(i), lean_list([g for g in got if g[1] is not None],
+                                                       lambda g: T.lpair(lean_str(g[0]), T.lstr_list(g[1])))))
+        return "[" + ", ".join(rows) + "]"
+    F.try_add("actualFields", "List (String × List (String × List String))", lean_actual_fields,
+              "per platform identity: runtime `_fields` of every namedtuple type named in docFields, as defined by the package imported as that platform")
+
     def lean_exposed():
         try:
             d = doc()
@@ -355,6 +398,23 @@ def _baseline_documented():
     out = {}
     for m in re.finditer(r'\("(\w+)", \[([^\]]*)\]\)', val):
         out[m.group(1)] = re.findall(r'"([^"]*)"', m.group(2))
+    return out
+
+
+def _baseline_doc_fields():
+    """(api, nt, fields, ordered) rows of the committed baseline when docs/ is absent"""
+    import re
+    p = os.path.join(extract.BASE_DIR, "C20.lean")
+    with open(p, encoding="utf-8") as f:
+        base = extract.parse_generated(f.read())
+    if "docFields" not in base:
+        raise NotRecognised("no baseline for `docFields`")
+    out = {i: [] for i in E.IDENTS}
+    val = base["docFields"][1]
+    # split per identity: ("ident", [ rows ])
+    for mi in re.finditer(r'\("(\w+)", \[((?:\("[^"]*", "[^"]*", (?:true|false), \[[^\]]*\]\)(?:, )?)*)\]\)', val):
+        for mr in re.finditer(r'\("([^"]*)", "([^"]*)", (true|false), \[([^\]]*)\]\)', mi.group(2)):
+            out[mi.group(1)].append((mr.group(1), mr.group(2), re.findall(r'"([^"]*)"', mr.group(4)), mr.group(3) == "true"))
     return out
 
 
